@@ -393,7 +393,7 @@ func (r *Run) nextWork() (*HarnessRun, []Dec) {
 func newExec(h *HarnessRun, prefix []Dec, s *Solver) *Exec {
 	ex := &Exec{H: h, prog: h.Run.Prog, solver: s, prefix: prefix, yieldCh: make(chan *yieldEv),
 		globals: map[*ssa.Global]*Cell{}, initDone: map[*ssa.Package]bool{}, unwind: h.Opt.Unwind,
-		blobs: map[string]blob{}, redirect: h.Run.redirects(), selFork: true, funcs: map[string]bool{}, notes: map[string]interface{}{}}
+		blobs: map[string]blob{}, redirect: h.Run.redirects(), dynRedirect: map[string]*FuncVal{}, selFork: true, funcs: map[string]bool{}, notes: map[string]interface{}{}}
 	return ex
 }
 
